@@ -156,6 +156,26 @@ class _WFile:
 
     def write(self, data):
         real = self._real
+        if _state["on"] and not _state["suspend"] and isinstance(real, io.RawIOBase):
+            # an unbuffered file object (buffering=0): one write(2) per call, straight to the file, and the call
+            # may take fewer bytes than it was given - it then RETURNS the short count, it does not raise
+            fault = _op("dwrite", self._path, extra=-1)
+            rec = _state["log"][-1]
+            rec["via"] = "oswrite"
+            if fault in ("torn", "torncrash"):
+                k = min(_state["plan"].get("k", 1), max(0, len(data) - 1))
+                n = real.write(bytes(data)[:k])
+                rec["extra"] = n
+                if fault == "torncrash":
+                    _flush_log()
+                    os._exit(CRASH_EXIT)
+                return n
+            n = real.write(data)
+            try:
+                rec["extra"] = real.tell()
+            except OSError:
+                rec["extra"] = n
+            return n
         if _state["on"] and not _state["suspend"]:
             fault = _op("write", self._path, extra=len(data))
             if fault in ("torn", "torncrash"):
